@@ -334,6 +334,12 @@ def run(ctx):
                 rr['sigs'] = list(range(1, len(rr['sigs']) + 1)) if rr['outcome'] == 'returned' and all(x == 1 for x in rr['sigs']) else rr['sigs']
                 rr['sizes'] = 'only record-less files'
                 mrecs.append(rr)
+        # no files at all: an empty result in every mode and for every worker count
+        for conc in (None, 'threads', 'processes'):
+            for workers in ([None, 1, 2, 4] if conc else [None]):
+                rr = mode_record([], set(), conc, workers, [])
+                rr['sizes'] = 'no files'
+                mrecs.append(rr)
         # the same file listed more than once (the same path given twice, equal SequenceFile objects): one signature per LIST ENTRY
         for conc in (None, 'threads', 'processes'):
             for workers in ([None, 2] if conc else [None]):
